@@ -254,6 +254,11 @@ def run_case(c):
                 pl, sl = src(pairs=True, aslist=True)
                 r['pairs_list'] = [kv(k_) for k_ in pl]
                 r['singles_list'] = [evaluate(sympy_of(k_), env).ser() for k_ in sl]
+                if name in ('N_roots_pairs', 'D_roots_pairs'):
+                    # roots() of the expression's own numerator / denominator polynomial (NOT the cancelled B, A)
+                    Pexpr = H.N if name == 'N_roots_pairs' else H.D
+                    r['poly'] = poly_coeffs(Pexpr, var, env)
+                    r['roots'] = rootdict(Pexpr.roots(), env)
             elif name == 'as_ZPK':
                 zeros, poles, K, undef = rf.as_ZPK()
                 r['zeros'] = rootdict(zeros, env)
